@@ -51,7 +51,17 @@ pub const ROOTS: [Root; 6] = [Root::Param, Root::ReturnOk, Root::ReturnErr, Root
 
 /// naming schemes for the nodes: plain, names that start with a container's name, names that embed
 /// other words the analyser looks for
-pub const NAMINGS: [[&str; 4]; 3] = [["N0", "N1", "N2", "N3"], ["Options", "Vector3", "ResultSummary", "OptionSet"], ["HashMapper", "Boxed", "Channels", "BTreeSetting"]];
+pub const NAMINGS: [[&str; 4]; 6] = [
+    ["N0", "N1", "N2", "N3"],
+    ["Options", "Vector3", "ResultSummary", "OptionSet"],
+    ["HashMapper", "Boxed", "Channels", "BTreeSetting"],
+    // letters without case, outside the BMP, and a cased non-ASCII one
+    ["書籍", "著者", "𠮷田Profile", "Ωmega"],
+    // every name is a substring of the one before it
+    ["CartItemGroupZ", "ItemGroupZ", "GroupZ", "Z"],
+    // ... and of the one after it
+    ["Q", "QLine", "QLineItem", "OrderQLineItem"],
+];
 
 #[derive(Debug, Clone, Serialize, Deserialize)]
 pub struct Case {
@@ -349,7 +359,7 @@ pub fn run(tier: Tier) -> CheckResult {
     res.coverage.set("outputs_not_parsable_here", not_parsable);
     res.coverage.set("exhaustive", exhaustive);
     res.coverage.set("samples", json!(cases.iter().step_by((cases.len() / 5).max(1)).take(5).collect::<Vec<_>>()));
-    res.coverage.set("rule", "type dependency graphs: every labelled digraph on 1..3 nodes incl. self-loops and cycles (thorough: plus 4 nodes with <= 5 edges); nodes with out-edges are structs, leaves rotate over struct / unit-variant enum / unit struct; root referenced from each of {parameter, Result ok-arm, Result err-arm, channel message, event payload as typed parameter, event payload as annotated let with a Default::default() initialiser}; three naming schemes for the nodes (N0.., names that start with a container's name such as Options / Vector3 / ResultSummary, names that embed analyser keywords); every edge and the root reference realised through each of 12 constructor contexts (two of them spelled with a module path) (uniform) and with one edge deviating; 3 file layouts (one file, one file per node in nested directories, commands before types); unreachable nodes plus a non-serde struct and an unused serde struct as decoys; oracle: the exported type declarations of types.ts (minus *Params) equal the least fixpoint of reachability from the root (empty for the err-arm root), none twice; in Zod mode schemas and type aliases agree. Non-trivial = graph has at least one edge and the project was accepted.");
+    res.coverage.set("rule", "type dependency graphs: every labelled digraph on 1..3 nodes incl. self-loops and cycles (thorough: plus 4 nodes with <= 5 edges); nodes with out-edges are structs, leaves rotate over struct / unit-variant enum / unit struct; root referenced from each of {parameter, Result ok-arm, Result err-arm, channel message, event payload as typed parameter, event payload as annotated let with a Default::default() initialiser}; six naming schemes for the nodes (N0.., names that start with a container's name such as Options / Vector3 / ResultSummary, names that embed analyser keywords, names in scripts without letter case and outside the BMP, names that are substrings of each other in both directions); every edge and the root reference realised through each of 12 constructor contexts (two of them spelled with a module path) (uniform) and with one edge deviating; 3 file layouts (one file, one file per node in nested directories, commands before types); unreachable nodes plus a non-serde struct and an unused serde struct as decoys; oracle: the exported type declarations of types.ts (minus *Params) equal the least fixpoint of reachability from the root (empty for the err-arm root), none twice; in Zod mode schemas and type aliases agree. Non-trivial = graph has at least one edge and the project was accepted.");
     res.assumptions = vec!["Result arms are used as root contexts only (a Result-typed struct field is outside the documented feature set)".into()];
     res
 }
